@@ -34,6 +34,7 @@ def run(ctx):
     ctx.rule(deltas_dtype)
     ctx.rule(kaldi_filters)
     ctx.rule(crop)
+    ctx.rule(blocks_are_filtered)
     ctx.rule(axes)
     ctx.rule(stack)
     ctx.rule(stack_layout)
@@ -213,6 +214,28 @@ def crop(ctx, R="R-C15-crop"):
     # the crop starts at the first fully-overlapping lag of the *padded* signal: lo == flen - 1
     r2 = S.compare(lo, S.sub(flen, S.ONE), domain={"flen": [Fraction(3), Fraction(5)]})
     ctx.check(r2["verdict"] == "equal", R, f, sub[0], "the crop starts at lag len(filt) - 1", "crop starts at %s" % S.show(lo))
+
+
+def blocks_are_filtered(ctx, R="R-C15-crop"):
+    """Every block of the result other than the input itself is produced by the padded correlation: a block of constants
+    (zeros for inputs "too short to change") is the documented value only for edge padding - with constant, linear_ramp or a
+    callable pad mode the padded neighbours differ from the frame and the deltas are not zero."""
+    prog = ctx.prog
+    f = _m(prog, "Deltas", "apply")
+    feats = f.params[1]
+    apps = [c_ for c_ in astq.func_calls(f) if astq.attr_call(c_, "append") and len(c_.args) == 1]
+    n = 0
+    for c_ in apps:
+        a = c_.args[0]
+        consts = [x for x in ast.walk(a) if isinstance(x, ast.Call) and (prog.qualify(f.module, x.func, f) or "") in (
+            "numpy.zeros_like", "numpy.zeros", "numpy.ones_like", "numpy.ones", "numpy.full", "numpy.full_like")]
+        if consts and not any(isinstance(x, ast.Call) and (prog.qualify(f.module, x.func, f) or "") == "numpy.correlate" for x in ast.walk(a)):
+            n += 1
+            ctx.bad(R, f, c_, "a block of the result is %s, not the padded correlation of the features with the delta filter: for pad modes whose "
+                    "padding differs from the edge frame (constant, linear_ramp, a callable) the documented deltas of a short input are "
+                    "not constant" % astq.text(a)[:60], "every delta block is computed by the correlation with the delta filter")
+    if not n:
+        ctx.ok(R, f.loc(), "every delta block is computed by the correlation with the delta filter (no constant blocks)")
 
 
 def axes(ctx, R="R-C15-axes"):
